@@ -128,9 +128,37 @@ fn run_loss_chain_case(id: &str, r: &mut Rng, out: &mut String) {
     run_rows(id, names, rows, cut, annual, out);
 }
 
+/// A year whose realised gains and losses cancel exactly (annual-gains mode must still account for
+/// the year), and a carried-over USD row whose commission is in CAD.
+fn run_cancel_case(id: &str, r: &mut Rng, out: &mut String) {
+    let names = vec!["Default".to_string()];
+    let a = Affiliate::from_strep("Default");
+    let y = 2019 + r.below(3) as i32;
+    let d = |m: time::Month, day: u8, yy: i32| jd(time::Date::from_calendar_date(yy, m, day).unwrap());
+    let mut rows: Vec<Tx> = Vec::new();
+    rows.push(ledger::mk_tx(d(time::Month::January, 10, y), &a, ledger::buy(Decimal::new(100, 0), Decimal::new(50, 0))));
+    rows.push(ledger::mk_tx(d(time::Month::March, 1, y), &a, ledger::sell(Decimal::new(10, 0), Decimal::new(60, 0), None)));
+    rows.push(ledger::mk_tx(d(time::Month::June, 1, y), &a, ledger::sell(Decimal::new(10, 0), Decimal::new(40, 0), None)));
+    if r.chance(50) {
+        rows.push(ledger::mk_tx(d(time::Month::September, 1, y), &a, ledger::sell(Decimal::new(3, 0), Decimal::new(70, 0), None)));
+        rows.push(ledger::mk_tx(d(time::Month::November, 1, y), &a, ledger::sell(Decimal::new(2, 0), Decimal::new(20, 0), None)));
+    }
+    rows.push(ledger::mk_tx(d(time::Month::February, 15, y + 1), &a, ledger::sell(Decimal::new(5, 0), Decimal::new(55, 0), None)));
+    rows.push(ledger::mk_tx(d(time::Month::August, 15, y + 1), &a, ledger::buy(Decimal::new(7, 0), Decimal::new(45, 0))));
+    for (i, t) in rows.iter_mut().enumerate() {
+        t.read_index = i as u32;
+        t.security = "S0".to_string();
+    }
+    let cut = *r.pick(&[d(time::Month::December, 31, y), d(time::Month::January, 20, y + 1), d(time::Month::July, 1, y)]);
+    run_rows(id, names, rows, cut, r.chance(80), out);
+}
+
 pub fn run_case(id: &str, r: &mut Rng, out: &mut String) {
     if r.chance(15) {
         return run_loss_chain_case(id, r, out);
+    }
+    if r.chance(6) {
+        return run_cancel_case(id, r, out);
     }
     let mut names = vec!["Default".to_string()];
     // error-free histories are the domain of C10; most cases drop the (mostly inconsistent) random
